@@ -93,7 +93,19 @@ fn image(id: u64, notify: u8, path: &str, body_format: u16, len: usize, fill: u8
     codec::encode_frame(&h, path.as_bytes(), &vec![fill; len])
 }
 
-pub fn check(c: &WsCase) -> CheckResult {
+/// What the raw peer saw for one generated scenario.
+pub struct Observed {
+    /// every binary message, in arrival order
+    pub messages: Vec<Vec<u8>>,
+    /// the byte image of the response expected for request i (id i+1)
+    pub expected_responses: Vec<Vec<u8>>,
+    /// notifies the server side issued: (path, body length, fill, queued successfully)
+    pub issued: Vec<(&'static str, usize, u8, bool)>,
+    /// did the connection end (server closed) before the peer stopped listening?
+    pub ended: bool,
+}
+
+pub fn observe(c: &WsCase) -> Result<Observed, Fail> {
     let pushed: Pushed = Arc::new(Mutex::new(Vec::new()));
     let router = Router::new()
         .with_erased_handler(
@@ -115,6 +127,10 @@ pub fn check(c: &WsCase) -> CheckResult {
     let buf = [1usize << 10, 1 << 14, 1 << 16, 1 << 20][c.buf as usize % 4];
     let shared = WebSocketServer::new(router)
         .with_outbound_capacity(capacity)
+        // no cap on off-reader handlers: a handler keeps its slot until its response is
+        // queued, so a stalled peer could otherwise turn the 17th request into a
+        // (legitimate) ResourceExhausted answer that is no issued image
+        .with_offreader_limit(0)
         .with_peer_registry(peers.clone())
         .on_error(|_| {})
         .into_shared();
@@ -146,7 +162,7 @@ pub fn check(c: &WsCase) -> CheckResult {
     let stall = Duration::from_millis(c.stall_ms as u64);
     let waits = if failure_seen() { Duration::from_millis(1500) } else { Duration::from_secs(20) };
 
-    let messages: Vec<Vec<u8>> = block_on(async {
+    let (messages, ended): (Vec<Vec<u8>>, bool) = block_on(async {
         let conn = dws::connect(&shared, buf).await;
         let (mut sink, mut stream) = conn.io.ws.split();
         let sender = tokio::spawn(async move {
@@ -174,6 +190,7 @@ pub fn check(c: &WsCase) -> CheckResult {
         let mut broadcaster = Some(broadcaster);
         let deadline = tokio::time::Instant::now() + waits;
         let mut stalled = false;
+        let mut ended = false;
         loop {
             if responses >= n_req && !bdone {
                 if let Some(b) = broadcaster.take() {
@@ -192,7 +209,10 @@ pub fn check(c: &WsCase) -> CheckResult {
             let next = tokio::time::timeout_at(deadline.min(tokio::time::Instant::now() + idle), stream.next()).await;
             match next {
                 Err(_) => break,
-                Ok(None) | Ok(Some(Err(_))) => break,
+                Ok(None) | Ok(Some(Err(_))) => {
+                    ended = true;
+                    break;
+                }
                 Ok(Some(Ok(WsMessage::Binary(b)))) => {
                     if b.len() >= 48 && b[11] == 0 {
                         responses += 1;
@@ -213,11 +233,26 @@ pub fn check(c: &WsCase) -> CheckResult {
         }
         sender.abort();
         conn.server.abort();
-        msgs
+        (msgs, ended)
     });
-
-    // the oracle: every message is exactly one frame and the image of one issued message
     let issued = pushed.lock().unwrap().clone();
+    Ok(Observed {
+        messages,
+        expected_responses,
+        issued,
+        ended,
+    })
+}
+
+pub fn check(c: &WsCase) -> CheckResult {
+    let Observed {
+        messages,
+        expected_responses,
+        issued,
+        ..
+    } = observe(c)?;
+    let n_req = expected_responses.len();
+    // the oracle: every message is exactly one frame and the image of one issued message
     let mut used_resp = vec![false; expected_responses.len()];
     let mut used_push = vec![false; issued.len()];
     let mut duplicates = 0usize;
@@ -280,7 +315,7 @@ pub fn check(c: &WsCase) -> CheckResult {
         .class(if c.stall_ms > 0 { "peer-stalled" } else { "peer-prompt" }))
 }
 
-fn ws_case() -> BoxedStrategy<WsCase> {
+pub fn ws_case() -> BoxedStrategy<WsCase> {
     let req = (any::<bool>(), 0u8..10, prop::collection::vec(0u8..10, 0..4)).prop_map(|(off_reader, size, pushes)| Req { off_reader, size, pushes });
     (
         prop::collection::vec(req, 1..=24),
